@@ -329,6 +329,16 @@ def step (st : St) (op impl : List String) : St × Verdict :=
         | _, _, _ => (st1, .badop "p9 result")
       | _ => (st1, v)
     | _, _ => (st, .badop "p9")
+  | ["racejoin", _, _, _] =>
+    -- C10_capacity_all_interleavings: admission is one critical section, so overlapping joins cannot overshoot
+    match impl with
+    | ["ok"] => (st, .ok)
+    | [r] =>
+      if r.startsWith "bad:" then
+        (st, .oracle s!"C10: overlapping joins overshot max-clients (non-operators admitted to a full group): {r}")
+      else if r.startsWith "env:" then (st, .ok)
+      else (st, .mismatch "ok")
+    | _ => (st, .mismatch "ok")
   | ["whipdl"] =>
     -- finding P14 (C13): the forced schedule must terminate
     match impl with
